@@ -538,6 +538,27 @@ def eval_cache(ctx, case):
             break
 
 
+def eval_filter_coordinates(ctx, pat, fnames, finvs, fsph):
+    """One pattern in each of the four coordinates: the filters select exactly the entries the reference matcher accepts in full."""
+    from myst_parser import inventory as mi
+
+    exp = [n for n in fnames if ref_match(n, pat)]
+    for coord, kwname, pick in (("name", "targets", lambda m: m.name), ("otype", "otypes", lambda m: m.otype), ("domain", "domains", lambda m: m.domain), ("inv", "invs", lambda m: m.inv)):
+        for label, fn, data in (("native", mi.filter_inventories, finvs[coord]), ("sphinx", mi.filter_sphinx_inventories, fsph[coord])):
+            if label == "sphinx" and coord in ("otype", "domain") and any(":" in n for n in fnames):
+                continue
+            try:
+                got = [pick(m) for m in fn(data, **{kwname: pat})]
+            except Exception as e:  # noqa: BLE001
+                ctx.violation(f"filter-coordinate:raises:{type(e).__name__}", f"{fn.__name__}({kwname}={pat!r}) raised {e!r}", {"kind": "coord", "pat": pat, "coord": coord})
+                continue
+            ctx.count("filter_coordinate_patterns")
+            if got != exp:
+                extra = [n for n in got if n not in exp][:3]
+                lost = [n for n in exp if n not in got][:3]
+                ctx.violation(f"filter-coordinate:{coord}:{'accepts-non-match' if extra else 'rejects-match'}", f"{fn.__name__}({kwname}={pat!r}) selects {got[:6]!r}...; the full-match reference selects {exp[:6]!r}... (extra {extra}, lost {lost})", {"kind": "coord", "pat": pat, "coord": coord})
+
+
 def run_shard(ctx):
     from myst_parser import inventory as mi
 
@@ -545,6 +566,15 @@ def run_shard(ctx):
     pmax, nmax = (4, 3) if ctx.tier == "quick" else (6, 4)
     # 1. exhaustive pairs, partitioned by pattern index
     names = ["".join(t) for nl in range(nmax + 1) for t in itertools.product(ALPHA, repeat=nl)]
+    # the same enumeration through the FILTER functions, one coordinate at a time (they may take their own path to a match)
+    fnames = [n for n in names if n and len(n) <= 3 and not any(ch.isspace() for ch in n)]
+    finvs = {
+        "name": {"k": {"name": "p", "version": "1", "base_url": None, "objects": {"d": {"t": {n: {"loc": "l", "text": None} for n in fnames}}}}},
+        "otype": {"k": {"name": "p", "version": "1", "base_url": None, "objects": {"d": {n: {"x": {"loc": "l", "text": None}} for n in fnames}}}},
+        "domain": {"k": {"name": "p", "version": "1", "base_url": None, "objects": {n: {"t": {"x": {"loc": "l", "text": None}}} for n in fnames}}},
+        "inv": {n: {"name": "p", "version": "1", "base_url": None, "objects": {"d": {"t": {"x": {"loc": "l", "text": None}}}}} for n in fnames},
+    }
+    fsph = {c: {k: mi.to_sphinx(v) for k, v in d.items()} for c, d in finvs.items()}
     idx = 0
     npairs = nontriv = 0
     done = True
@@ -560,6 +590,8 @@ def run_shard(ctx):
             for name in names:
                 eval_pair(ctx, pat, name)
             npairs += len(names)
+            if pl <= 4:
+                eval_filter_coordinates(ctx, pat, fnames, finvs, fsph)
             if "*" in pat or "\\" in pat:
                 nontriv += len(names)
     ctx.case(n=npairs)
